@@ -96,7 +96,11 @@ func readBatchWithin(conn *kafka.Conn, within time.Duration) (d []string, outcom
 // runFetch: one fetch response holding `set` for a conn positioned at o.
 func runFetch(ver int, o, hwm int64, set []byte) string {
 	b := &Broker{FetchMax: int16(ver), Topic: "t", OnFetch: func(q FetchReq) FetchResp {
-		return FetchResp{Hwm: hwm, Set: set, Cut: -1}
+		// an open transaction begins right where the consumer stands (last stable offset = fetch offset < high watermark):
+		// with the default isolation level the broker returns the records up to the high watermark all the same
+		// (seeded/C02-m12: the v10 header reader took the last stable offset for the watermark)
+		lso := q.Offset
+		return FetchResp{Hwm: hwm, Set: set, Cut: -1, LSO: &lso}
 	}}
 	cli, _ := b.Dial()
 	conn := kafka.NewConn(cli, "t", 0)
@@ -281,7 +285,8 @@ func genLog(r *rand.Rand, format int, nBatches int, emptyBias int) (items []Item
 			if len(recs) == 0 {
 				codec = 0 // the cleaner writes empty batches as a bare header (no compression attribute, no payload)
 			}
-			items = append(items, Item{Format: 2, Codec: codec, Base: base, Last: last, Recs: recs})
+			// every third batch comes from a transactional producer (committed: plain data with attributes bit 4)
+			items = append(items, Item{Format: 2, Codec: codec, Base: base, Last: last, Recs: recs, Transactional: base%3 == 1})
 		default:
 			if len(recs) == 0 {
 				continue
@@ -380,6 +385,10 @@ func corpus() {
 				fetchCase(ver, 101, 130, []Item{{Format: f, Codec: 1, Base: 100, Recs: recs(100, 101, 102), WrapKey: k}, {Format: f, Recs: recs(103)}}, -1)
 			}
 		}
+		// batches of a transactional producer (attributes bit 4), committed: data like any other (seeded/C02-m11)
+		fetchCase(ver, 100, 130, []Item{{Format: 2, Base: 100, Last: 102, Recs: recs(100, 101, 102), Transactional: true}}, -1)
+		fetchCase(ver, 101, 130, []Item{{Format: 2, Codec: 1, Base: 100, Last: 102, Recs: recs(100, 101, 102), Transactional: true},
+			data(103, 104, 103, 104)}, -1)
 		// iterated: D4 duplicates forever
 		iterCase(ver, 100, 112, []Item{data(100, 104, 100, 101, 102, 103, 104), empty(105, 109), data(110, 111, 110, 111)}, []int{1 << 20})
 		iterCase(ver, 100, 112, []Item{data(100, 104, 100, 101, 102, 103, 104), empty(105, 109), data(110, 111, 110, 111)}, []int{150})
